@@ -139,7 +139,7 @@ def run_case(case):
 
 
 def strategy():
-    alpha = "ab" + "Ｅ中" + "̤́"
+    alpha = "ab" + "Ｅ中" + "̤́" + widths.EXTRA_ZERO + widths.EXTRA_WIDE
     run = st.tuples(st.text(alphabet=alpha, min_size=0, max_size=7), st.sampled_from(FMTS)).map(list)
     long_run = st.tuples(st.text(alphabet=alpha + "aaab", min_size=20, max_size=150), st.sampled_from(FMTS)).map(list)
     descs = st.one_of(st.lists(run, min_size=1, max_size=5), st.lists(run, min_size=1, max_size=5), st.lists(run, min_size=8, max_size=70),
